@@ -1432,7 +1432,8 @@ OCTET_STRING_decode_uper(const asn_codec_ctx_t *opt_codec_ctx,
 		}
 	}
 
-	if(csiz->effective_bits >= 0) {
+	/* Only a fixed size is known (and allocated) before the length is read */
+	if(csiz->effective_bits == 0) {
 		FREEMEM(st->buf);
 		if(bpc) {
 			st->size = csiz->upper_bound * bpc;
